@@ -1,8 +1,10 @@
 import Zc.Model.RegPending
 import Zc.Proofs.History
 import Zc.Proofs.Packetize
-/-! C03 at the wire: as long as no reply that is still pending holds a record of the service being changed,
-every datagram is made of records of services registered when it is sent. -/
+/-! C03 at the wire: outside the input classes of the recorded findings D20 / D20b / D20c (`changeOk`: a pending record of the
+service an update replaces that the new state no longer owns; a pending type-enumeration pointer / shared-host address or NSEC
+record that `async_unregister_service` does not purge and no remaining service owns) every datagram is made of records of services
+registered when it is sent.  The records `async_unregister_service` *does* purge (`purgeMap`) are shown to be gone. -/
 namespace Zc
 
 section
@@ -86,47 +88,186 @@ theorem recordsOf_purge {W : List Rec} {d : DictRS} {r : Rec} (h : r ∈ records
     · exact Or.inl hr
     · exact Or.inr (List.mem_filter.mp hr).1
 
-/-- pending records owned by a service that is not in `ks` -/
-def SafeFor (ks : List String) (h : RHost) : Prop :=
-  ∀ d ∈ h.pending, ∀ r ∈ recordsOf d, ∃ o ∈ h.reg.services.map Svc.clearMemo, lower o.name ∉ ks ∧ r ∈ RespSpec.own lower ettl o
+/-! ### what the purge removes -/
 
-theorem unregisterOne_spec {h : RHost} (hp : PendInv lower ettl h) (ks : List String) (hs : SafeFor lower ettl ks h)
-    (k : String) (hk : k ∈ ks) :
-    PendInv lower ettl (h.unregisterOne lower ettl k) ∧ SafeFor lower ettl ks (h.unregisterOne lower ettl k) := by
-  unfold RHost.unregisterOne
+theorem recInsert_covers_old {l : List Rec} {r x : Rec} (h : l.any (fun w => w.beq lower x) = true) :
+    (recInsert lower l r).any (fun w => w.beq lower x) = true := by
+  unfold recInsert
+  split
+  · exact h
+  · rw [List.any_append, h]; rfl
+
+theorem recInsert_covers_new (l : List Rec) (r : Rec) : (recInsert lower l r).any (fun w => w.beq lower r) = true := by
+  unfold recInsert
+  split
+  · assumption
+  · rw [List.any_append, Bool.or_eq_true]; right; simp [beq_refl lower r]
+
+theorem foldInsert_covers (l acc : List Rec) (x : Rec) (h : x ∈ l ∨ acc.any (fun w => w.beq lower x) = true) :
+    (l.foldl (recInsert lower) acc).any (fun w => w.beq lower x) = true := by
+  induction l generalizing acc with
+  | nil =>
+    rcases h with h | h
+    · simp at h
+    · exact h
+  | cons a r ih =>
+    simp only [List.foldl_cons]
+    apply ih
+    rcases h with h | h
+    · rcases List.mem_cons.mp h with rfl | h1
+      · exact Or.inr (recInsert_covers_new lower acc x)
+      · exact Or.inl h1
+    · exact Or.inr (recInsert_covers_old lower h)
+
+/-- a Python set built from `l` holds a record identical to each element of `l` -/
+theorem recSet_covers {l : List Rec} {x : Rec} (h : x ∈ l) : (recSet lower l).any (fun w => w.beq lower x) = true :=
+  foldInsert_covers lower l [] x (Or.inl h)
+
+/-- what `_get_address_and_nsec_records` returns holds (up to identity) every address record and the NSEC record of the service -/
+theorem freshAN_covers (s : Svc) {x : Rec} (h : x ∈ RespSpec.addrsOf s ∨ x ∈ RespSpec.nsecOf s) :
+    (s.freshAN lower).any (fun w => w.beq lower x) = true := by
+  rw [Svc.freshAN_eq, Svc.buildAddrs_eq, Svc.missingTypes_eq]
+  simp only
+  rcases h with h | h
+  · split
+    · exact recSet_covers lower h
+    · exact recInsert_covers_old lower (recSet_covers lower h)
+  · by_cases hm : RespSpec.missing s = []
+    · simp [RespSpec.nsecOf, hm] at h
+    · rw [Svc.buildNsec_eq s hm, List.mem_singleton] at h
+      subst h
+      have : (RespSpec.missing s).isEmpty = false := by simpa using hm
+      simp only [this]
+      exact recInsert_covers_new lower _ _
+
+/-- a record that survives `async_remove_answers(W)` is identical to none of `W` -/
+theorem recordsOf_purge_not {W : List Rec} {d : DictRS} {r : Rec} (h : r ∈ recordsOf (purgeMap lower W d)) :
+    W.any (fun w => w.beq lower r) = false := by
+  obtain ⟨p, hp, hr⟩ := mem_recordsOf.mp h
+  unfold purgeMap at hp
+  rw [List.mem_filterMap] at hp
+  obtain ⟨p0, _, he⟩ := hp
+  split at he
+  · simp at he
+  · rename_i hk
+    have : p = (p0.1, p0.2.filter (fun a => !(W.any (fun w => w.beq lower a)))) := by simpa using he.symm
+    subst this
+    rcases hr with hr | hr
+    · simp only at hr; subst hr; simpa using hk
+    · simpa using (List.mem_filter.mp hr).2
+
+theorem ownedBy_iff {spec : List Svc} {r : Rec} : ownedBy lower ettl spec r = true ↔ OwnedIn lower ettl spec r := by
+  unfold ownedBy OwnedIn
+  rw [List.any_eq_true]
+  constructor
+  · rintro ⟨s, hs, hc⟩; exact ⟨s, hs, List.contains_iff_mem.mp hc⟩
+  · rintro ⟨s, hs, hc⟩; exact ⟨s, hs, List.contains_iff_mem.mpr hc⟩
+
+/-- the registered object behind an abstract service with key `k` -/
+theorem spec_owner {reg : Registry} (hd : KeysDistinct lower reg.services) {o : Svc} (ho : o ∈ reg.services.map Svc.clearMemo) :
+    ∃ old, sget lower (lower o.name) reg.services = some old ∧ old.clearMemo = o := by
+  obtain ⟨old, hold, rfl⟩ := List.mem_map.mp ho
+  exact ⟨old, by rw [Svc.clearMemo_name]; exact sget_of_mem lower hd hold, rfl⟩
+
+/-- `async_unregister_service` for one registered service: outside the input classes of D20b/D20c every pending record stays owned -/
+theorem unregisterOne_spec {h : RHost} (hp : PendInv lower ettl h) (k : String) (hc : unregisterOneOk lower ettl h k = true) :
+    PendInv lower ettl (h.unregisterOne lower ettl k) := by
+  unfold unregisterOneOk at hc
   cases hg : sget lower k h.reg.services with
-  | none => exact ⟨hp, hs⟩
+  | none => unfold RHost.unregisterOne; rw [hg]; exact hp
   | some old =>
-    simp only
+    rw [hg] at hc
+    simp only at hc
+    obtain ⟨hold, hkey⟩ := sget_some_mem lower hg
+    have hmemo : MemoOk lower old := hp.hist.fresh old hold (by simp)
     obtain ⟨hh, href⟩ := hist_step lower ettl hp.hist (.unregister [k]) (by simp [dirtyStep])
-    have hsafe : SafeFor lower ettl ks
+    have hun : h.unregisterOne lower ettl k =
         { reg := h.reg.step lower ettl (.unregister [k]),
           pending := h.pending.map (purgeMap lower ([old.ptr, old.srv, old.txt] ++
             (if (dget (old.serverKey lower) (h.reg.step lower ettl (.unregister [k])).servers).isSome then [] else old.an lower))) } := by
-      intro d hd r hr
-      simp only [List.mem_map] at hd
-      obtain ⟨d0, hd0, rfl⟩ := hd
-      obtain ⟨o, ho, hn, hown⟩ := hs d0 hd0 r (recordsOf_purge lower hr)
-      refine ⟨o, ?_, hn, hown⟩
-      simp only
+      unfold RHost.unregisterOne; rw [hg]
+    rw [hun] at hc ⊢
+    refine ⟨hh, ?_⟩
+    intro d hd r hr
+    simp only at hd hr ⊢
+    obtain ⟨d0, hd0, rfl⟩ := List.mem_map.mp hd
+    have hnot := recordsOf_purge_not lower hr
+    obtain ⟨o, ho, hown⟩ := hp.owned d0 hd0 r (recordsOf_purge lower hr)
+    by_cases hk : lower o.name = k
+    · -- `o` is the withdrawn service
+      obtain ⟨old', hg', hcl⟩ := spec_owner lower hp.hist.inv.distinct ho
+      rw [hk, hg] at hg'
+      have : old' = old := (Option.some.inj hg').symm
+      subst this
+      -- the hypothesis, at this record
+      have hcr := hc
+      simp only [List.all_eq_true] at hcr
+      have hcr2 := hcr _ hd r hr
+      rw [Bool.or_eq_true] at hcr2
+      have hpurged : ∀ w, w ∈ [old'.ptr, old'.srv, old'.txt] → w.beq lower r = false := by
+        intro w hw
+        rw [List.any_eq_false] at hnot
+        have := hnot w (List.mem_append.mpr (Or.inl hw))
+        simpa using this
+      rw [← hcl, RespSpec.own_clear, mem_own] at hown
+      rcases hown with h1 | h1 | h1 | h1 | h1
+      · -- the type-enumeration pointer: D20b's class, covered by the hypothesis
+        rcases hcr2 with h2 | h2
+        · exfalso
+          have : (unpurged lower ettl old'.clearMemo
+              (dget (old'.serverKey lower) (h.reg.step lower ettl (.unregister [k])).servers).isSome).contains r = true := by
+            rw [List.contains_iff_mem]; unfold unpurged; rw [h1]; exact List.mem_cons_self
+          rw [this] at h2
+          simp at h2
+        · exact (ownedBy_iff lower ettl).mp h2
+      · exfalso
+        have := hpurged old'.ptr (by simp)
+        rw [hmemo.ptr_eq, Svc.buildPtr_eq, ← h1, beq_refl] at this
+        exact Bool.noConfusion this
+      · exfalso
+        have := hpurged old'.srv (by simp)
+        rw [hmemo.srv_eq, Svc.buildSrv_eq, ← h1, beq_refl] at this
+        exact Bool.noConfusion this
+      · exfalso
+        have := hpurged old'.txt (by simp)
+        rw [hmemo.txt_eq, Svc.buildTxt_eq, ← h1, beq_refl] at this
+        exact Bool.noConfusion this
+      · -- an address or NSEC record of the withdrawn service
+        cases hsh : (dget (old'.serverKey lower) (h.reg.step lower ettl (.unregister [k])).servers).isSome
+        · -- host not shared: `get_address_and_nsec_records()` was purged
+          exfalso
+          rw [hsh] at hnot
+          simp only [Bool.false_eq_true, if_false] at hnot
+          rw [List.any_append, Bool.or_eq_false_iff] at hnot
+          have hcov := freshAN_covers lower old' h1
+          rw [← hmemo.an_eq] at hcov
+          rw [hnot.2] at hcov
+          exact Bool.noConfusion hcov
+        · -- host shared: D20c's class, covered by the hypothesis
+          rw [hsh] at hcr2
+          rcases hcr2 with h2 | h2
+          · exfalso
+            have : (unpurged lower ettl old'.clearMemo true).contains r = true := by
+              rw [List.contains_iff_mem]; unfold unpurged
+              simp only [if_true, List.mem_cons, List.mem_append]
+              exact Or.inr h1
+            rw [this] at h2
+            simp at h2
+          · exact (ownedBy_iff lower ettl).mp h2
+    · -- another service owns the record, and it stays registered
+      refine ⟨o, ?_, hown⟩
       rw [href]
       simp only [RegSpec.step, List.mem_filter]
-      refine ⟨ho, ?_⟩
-      have : lower o.name ≠ k := fun e => hn (e ▸ hk)
-      simp [this]
-    refine ⟨⟨hh, ?_⟩, hsafe⟩
-    intro d hd r hr
-    obtain ⟨o, ho, _, hown⟩ := hsafe d hd r hr
-    exact ⟨o, ho, hown⟩
+      exact ⟨ho, by simp [hk]⟩
 
-theorem unregisterFold_spec (ks : List String) (l : List String) (hl : ∀ k ∈ l, k ∈ ks) {h : RHost} (hp : PendInv lower ettl h)
-    (hs : SafeFor lower ettl ks h) : PendInv lower ettl (l.foldl (RHost.unregisterOne lower ettl) h) := by
-  induction l generalizing h with
+theorem unregisterFold_spec (ks : List String) {h : RHost} (hp : PendInv lower ettl h) (hc : unregisterOk lower ettl h ks = true) :
+    PendInv lower ettl (ks.foldl (RHost.unregisterOne lower ettl) h) := by
+  induction ks generalizing h with
   | nil => exact hp
   | cons k r ih =>
+    simp only [unregisterOk, Bool.and_eq_true] at hc
     simp only [List.foldl_cons]
-    obtain ⟨hp1, hs1⟩ := unregisterOne_spec lower ettl hp ks hs k (hl k (by simp))
-    exact ih (fun x hx => hl x (by simp [hx])) hp1 hs1
+    exact ih (unregisterOne_spec lower ettl hp k hc.1) hc.2
 
 /-- one host operation keeps the invariant (given the finding's signature does not apply) and sends only current records -/
 theorem host_step_spec {h : RHost} (hp : PendInv lower ettl h) (op : HostOp) (hc : changeOk lower ettl h op = true) :
@@ -170,21 +311,26 @@ theorem host_step_spec {h : RHost} (hp : PendInv lower ettl h) (op : HostOp) (hc
       obtain ⟨hh, href⟩ := hist_step lower ettl hp.hist (.update s) (by simp [dirtyStep])
       refine ⟨⟨hh, ?_⟩, by simp [RHost.step]⟩
       intro d hd r hr
-      simp only [changeOk, List.all_eq_true, List.any_eq_true, Bool.and_eq_true, Bool.not_eq_true', decide_eq_false_iff_not] at hc
-      obtain ⟨o, ho, hn, hown⟩ := hc d hd r hr
-      refine ⟨o, ?_, List.contains_iff_mem.mp hown⟩
-      simp only [RHost.step]
+      simp only [RHost.step] at hd ⊢
       rw [href]
-      simp only [RegSpec.step]
-      exact List.mem_append.mpr (Or.inl (List.mem_filter.mpr ⟨ho, by simp [hn]⟩))
+      obtain ⟨o, ho, hown⟩ := hp.owned d hd r hr
+      by_cases hk : lower o.name = lower s.name
+      · -- a record of the service being replaced: D20's class, covered by the hypothesis
+        obtain ⟨old, hg, hcl⟩ := spec_owner lower hp.hist.inv.distinct ho
+        rw [hk] at hg
+        simp only [changeOk, updateOk, hg, List.all_eq_true, Bool.or_eq_true] at hc
+        rcases hc d hd r hr with h2 | h2
+        · exfalso
+          rw [hcl, List.contains_iff_mem.mpr hown] at h2
+          simp at h2
+        · exact (ownedBy_iff lower ettl).mp h2
+      · refine ⟨o, ?_, hown⟩
+        simp only [RegSpec.step]
+        exact List.mem_append.mpr (Or.inl (List.mem_filter.mpr ⟨ho, by simp [hk]⟩))
     | unregister ks =>
       refine ⟨?_, by simp [RHost.step]⟩
       simp only [RHost.step]
-      apply unregisterFold_spec lower ettl ks ks (fun k hk => hk) hp
-      intro d hd r hr
-      simp only [changeOk, List.all_eq_true, List.any_eq_true, Bool.and_eq_true, Bool.not_eq_true'] at hc
-      obtain ⟨o, ho, hn, hown⟩ := hc d hd r hr
-      exact ⟨o, ho, by simpa using hn, List.contains_iff_mem.mp hown⟩
+      exact unregisterFold_spec lower ettl ks hp (by simpa [changeOk] using hc)
     | mutate k m => simp [changeOk] at hc
     | query msgs =>
       rcases respond_ok lower ettl hp.hist.inv msgs with ⟨_, hr⟩ | ⟨_, hr⟩
@@ -207,12 +353,12 @@ theorem host_step_spec {h : RHost} (hp : PendInv lower ettl h) (op : HostOp) (hc
           exact answerMap_owned lower ettl hp.hist.inv hm msgs r hrd
 
 theorem runFrom_spec (ops : List HostOp) {h : RHost} (hp : PendInv lower ettl h)
-    (hq : noReplyQueuedForChanged lower ettl h ops = true) :
+    (hq : noSupersededReplyQueued lower ettl h ops = true) :
     ∀ o ∈ (RHost.runFrom lower ettl h ops).2, Sent.current lower ettl o = true := by
   induction ops generalizing h with
   | nil => intro o ho; simp [RHost.runFrom] at ho
   | cons op rest ih =>
-    simp only [noReplyQueuedForChanged, Bool.and_eq_true] at hq
+    simp only [noSupersededReplyQueued, Bool.and_eq_true] at hq
     obtain ⟨hp1, hout⟩ := host_step_spec lower ettl hp op hq.1
     intro o ho
     simp only [RHost.runFrom, List.mem_append] at ho
